@@ -41,7 +41,7 @@ def isUnitless : UnitT → Bool
 
 /-- `unit_mapping[unit]` as used by `TimePar.validate_units` (string aliases; `None ↦ None`);
     a miss is the `ValueError` raised there. -/
-def normUnit : UnitT → Except Err UnitT
+def canonUnit : UnitT → Except Err UnitT
   | none => .ok none
   | some s =>
     match Gen.unitAliases.find? (fun r => r.2.contains s) with
@@ -207,11 +207,11 @@ abbrev Res := Except Err Unit
 
 /-- `validate_units`: normalise `unit`, then `parent_unit`; a miss raises after the earlier assignment -/
 def validateUnits {α : Type} (t : TP α) : TP α × Res :=
-  match normUnit t.unit with
+  match canonUnit t.unit with
   | .error e => (t, .error e)
   | .ok u =>
     let t1 := { t with unit := u }
-    match normUnit t1.parentUnit with
+    match canonUnit t1.parentUnit with
     | .error e => (t1, .error e)
     | .ok p => ({ t1 with parentUnit := p }, .ok ())
 
@@ -262,7 +262,7 @@ def init {α : Type} (o : NumOps α) (t : TP α) (viaParent : Bool) (pu : UnitT)
   | (t2, .ok ()) => validateUnits { t2 with initialized := true }
 
 /-- `TimePar.set(...)` (None arguments ignored) -/
-def set {α : Type} (o : NumOps α) (t : TP α) (v : Option (Val α)) (unit parentUnit : UnitT)
+def setPars {α : Type} (o : NumOps α) (t : TP α) (v : Option (Val α)) (unit parentUnit : UnitT)
     (parentDt selfDt : Option Rat) (force : Bool) : TP α × Res :=
   let t1 := { t with v := v.getD t.v, unit := orElse unit t.unit, parentUnit := orElse parentUnit t.parentUnit,
                      parentDt := orElse parentDt t.parentDt, selfDt := orElse selfDt t.selfDt }
@@ -272,25 +272,30 @@ def set {α : Type} (o : NumOps α) (t : TP α) (v : Option (Val α)) (unit pare
     | (t2, .ok ()) => validateUnits t2
   else validateUnits t1
 
+/-- `TimePar.to`: the target unit `sc.ifelse(unit, self.parent_unit, self.unit)` -/
+def tgtUnit {α : Type} (t : TP α) (unit : UnitT) : UnitT := orElse unit (orElse t.parentUnit t.unit)
+/-- `TimePar.to`: the target dt `sc.ifelse(dt, 1.0)` -/
+def tgtDt (dt : Option Rat) : Option Rat := orElse dt (some Gen.toDefaultDt)
+/-- the object `to` returns once the converted values are known -/
+def rebuilt {α : Type} (t : TP α) (u : UnitT) (pdt : Option Rat) (vals : Val α) : TP α :=
+  { t with v := vals, values := some vals, factor := some 1, unit := u, selfDt := pdt, parentUnit := u, parentDt := pdt }
+
 /-- `TimePar.to(unit, dt)`: a new object; the receiver is unchanged -/
-def to {α : Type} (o : NumOps α) (t : TP α) (unit : UnitT) (dt : Option Rat) : Except Err (TP α) :=
-  let u := orElse unit (orElse t.parentUnit t.unit)
-  let pdt := orElse dt (some Gen.toDefaultDt)
-  match timeRatio t.unit t.selfDt u pdt with
+def convertTo {α : Type} (o : NumOps α) (t : TP α) (unit : UnitT) (dt : Option Rat) : Except Err (TP α) :=
+  match timeRatio t.unit t.selfDt (tgtUnit t unit) (tgtDt dt) with
   | .error e => .error e
   | .ok f =>
     match convVal o t.kind (o.ofRat f) t.v with
-    | (some vals, .ok ()) =>
-        .ok { t with v := vals, values := some vals, factor := some 1, unit := u, selfDt := pdt, parentUnit := u, parentDt := pdt }
+    | (some vals, .ok ()) => .ok (rebuilt t (tgtUnit t unit) (tgtDt dt) vals)
     | (_, .error e) => .error e
-    | (none, .ok ()) => .error .type   -- unreachable (convVal_ok_some)
+    | (none, .ok ()) => .error .type   -- unreachable: `convVal` never returns `(none, ok)`
 
 /-- `to_parent()` -/
-def toParent {α : Type} (o : NumOps α) (t : TP α) : Except Err (TP α) := to o t t.parentUnit t.parentDt
+def toParent {α : Type} (o : NumOps α) (t : TP α) : Except Err (TP α) := convertTo o t t.parentUnit t.parentDt
 
 /-- `asnew().set(v=new_v)` — `__mul__`, `__rmul__`, `__truediv__`, `__neg__` -/
 def withV {α : Type} (o : NumOps α) (t : TP α) (v : Val α) : Except Err (TP α) :=
-  match set o t (some v) none none none none false with
+  match setPars o t (some v) none none none none false with
   | (t', .ok ()) => .ok t'
   | (_, .error e) => .error e
 
@@ -323,6 +328,6 @@ def rdivC {α : Type} (o : NumOps α) (t : TP α) (c : α) : Except Err (Val α)
 
 /-- in-place `+= -= *= /=`: `set(v = v ∘ c)` -/
 def isetV {α : Type} (o : NumOps α) (t : TP α) (f : α → α) : TP α × Res :=
-  set o t (some (t.v.map f)) none none none none false
+  setPars o t (some (t.v.map f)) none none none none false
 
 end StarsimModel.TimePar
